@@ -117,7 +117,7 @@ def compare(cases, impl, mod):
         for l in li:
             if l.startswith("SEMFAIL"):
                 sem.append((cid, l))
-        core_i = [l for l in li if l[0] in "PQB" and l[1] == " "]
+        core_i = [l for l in li if l[0] in "PQBIR" and l[1] == " "]
         nt = False
         for l in core_i:
             p = l.split()
